@@ -175,7 +175,25 @@ def run_case(seed):
         os.makedirs(os.path.dirname(outp))
         desc = dict(seed=seed, recipe=rkind, recipe_source=src, kept_fields=kept, serial=serial, fields=keys, meta=pf.meta)
         core.set_policy(rng.choice(['identity', 'reverse', 'random']), seed + k)
-        res = core.outcome(lambda: Chef(plotfile=path, recipe=rpath, outfile=outp, kept_fields=kept, serial=serial).cook())
+        via_cli = random.Random(seed * 331 + k).random() < 0.35
+        count(f"entry point={'command line' if via_cli else 'library'}")
+        if via_cli:
+            # the command-line entry point: -k takes the kept fields as ONE argument, names separated by blanks
+            argv = ['chef', path, '-o', outp, '-r', rpath] + (['-k', kept] if kept is not None else [])
+
+            def run_cli():
+                import contextlib, io, sys
+                from amr_kitchen.chef import cli
+                old_argv = sys.argv
+                sys.argv = argv
+                try:
+                    with contextlib.redirect_stdout(io.StringIO()):
+                        cli.main()
+                finally:
+                    sys.argv = old_argv
+            res = core.outcome(run_cli)
+        else:
+            res = core.outcome(lambda: Chef(plotfile=path, recipe=rpath, outfile=outp, kept_fields=kept, serial=serial).cook())
         core.set_policy('identity', 0)
         out['evals'] += 1
         out['keys'].append(core.khash(seed, k))
